@@ -57,16 +57,30 @@ func c10ConstSweep() []string {
 		"numbers(2000).combine((p, q) -> p * q).map(x -> x % 7)", "numbers(40).map(e -> e + 1).combine((p, q) -> p + q).accept(e -> e % 2 = 1)",
 		"numbers(30).iirCombine(e -> e, (le, e, l) -> l + e - le)", "numbers(12).fsm((s, e) -> goto((s.state + e) % 3)).map(m -> m.state)",
 		"[3, 1, 2].order(e -> e)", "[3, 1, 2].reverse()", // (groupBy*/unique* have an unspecified order: excluded by the property)
+		// constants that are materialised with spare capacity when the function is generated
+		"[1, 2].append(3)", "numbers(5).eval()", "[1, 2, 3].map(x -> x * 2).eval()", "[1, 2].append(3).append(4).append(5)",
 	}
 	uses := []string{
 		"c.map(x -> x * a).top(a % 5 + 1)", "c.mapReduce(a, (s, x) -> s + x)", "c.top(a % 7).size() + c.skip(a % 7).size()", "c.first() + a",
 		"c.accept(x -> x % (a % 3 + 2) = 0)", "[c.size(), c.map(x -> x + a).sum()]", "c.indexWhere(x -> x > a * 3)", "c.append(a).size() + c.size()",
-		"c.map(x -> x + a)", "(c ~ (c + [a])) & ([c.first()] ~ c)",
+		"c.map(x -> x + a)", "(c ~ (c + [a])) & ([c.first()] ~ c)", "c.append(a).string()", "c.append(a).append(a + 1).sum()", "c[a % 3] + c[0]", "c[c.size() - 1] + a",
 	}
 	var res []string
 	for _, st := range stages {
 		for _, u := range uses {
 			res = append(res, "let c = "+st+"; "+u)
+		}
+	}
+	// lazy lists that depend on the argument (built anew by every evaluation) under every operation that forces them:
+	// whatever the forcing needs (scratch stacks, buffers) must belong to the evaluation
+	argStages := []string{"numbers(40).iir(e -> a, (e, l) -> l + a)", "numbers(40).combine((p, q) -> p + q + a)", "numbers(40).number((n, e) -> n * e + a)", "numbers(30).map(e -> e + a)",
+		"numbers(30).accept(e -> e % (a + 2) = 0)", "[1, 1, 2, a, a].compact((p, q) -> p = q)", "[1, 2, 3].cross([a, 20], (p, q) -> p + q)", "numbers(20).combine3((p, q, r) -> p + q + r + a)",
+		"numbers(20).combineN(2, w -> w.sum() + a)", "numbers(20).iirCombine(e -> e, (le, e, l) -> l + e - le + a)", "[1, 4, 7].merge([2, a + 3], (p, q) -> p < q)",
+		"numbers(12).fsm((s, e) -> goto((s.state + e + a) % 3)).map(m -> m.state)", "(numbers(10) + numbers(10).number((n, e) -> n + a))"}
+	forcing := []string{"[5]", ".size()", ".first()", ".last()", ".string()", ".eval().size()", ".reverse().first()", ".top(3).string()", ".sum()", ".append(a).size()", ".indexWhere(x -> x > 5)", ".skip(2).first()"}
+	for _, st := range argStages {
+		for _, fo := range forcing {
+			res = append(res, st+fo)
 		}
 	}
 	res = append(res,
@@ -106,7 +120,7 @@ func genC10Programs(c *Ctx, n, depth int) []string {
 }
 
 func runC10(c *Ctx) {
-	c.rule = "programs with state that survives an evaluation (constant lazy lists, constant maps and closures bound before use, recursion, failing elements, partially consumed lists; corpus + C01 generator with a constant list in scope) are generated once and evaluated in a history of up to 50 steps: arguments from a pool of 8, interleaved with evaluations of two other functions of the same generator, new Generate calls, results dropped, forced, or half consumed (first / top / size via the API) and consumed later; predicate: every outcome equals the isolated first evaluation of the same program and argument on a fresh generator, and the Lean model's reference outcome; non-trivial = distinct (program, history) with >= 3 evaluations over >= 2 different arguments of a program that contains a constant list/closure"
+	c.rule = "programs with state that survives an evaluation (constant lazy lists, constant maps and closures bound before use, recursion, failing elements, partially consumed lists; corpus + C01 generator with a constant list in scope) are generated once and evaluated in a history of up to 50 steps: arguments from a pool of 8, handed over as a sub-slice of a host-owned buffer with spare capacity (which must stay untouched), interleaved with evaluations of two other functions of the same generator, new Generate calls, results dropped, forced, or half consumed (first / top / size via the API) and consumed later; predicate: every outcome equals the isolated first evaluation of the same program and argument on a fresh generator, and the Lean model's reference outcome; non-trivial = distinct (program, history) with >= 3 evaluations over >= 2 different arguments of a program that contains a constant list/closure"
 	c.assume = append(c.assume, "state outside the model: list materialisation caches (C09 shows they are unobservable), package-level variables")
 	n := c.Pick(400, 12000)
 	steps := c.Pick(30, 50)
@@ -136,6 +150,10 @@ func runC10(c *Ctx) {
 			}
 		}
 		iso := map[int]string{}
+		argBuf := make([]value.Value, 12)
+		for k := range argBuf {
+			argBuf[k] = value.String("host-owned")
+		}
 		type heldResult struct {
 			v value.Value
 			a int
@@ -212,7 +230,18 @@ func runC10(c *Ctx) {
 				}
 				distinctArgs[a] = true
 				evals++
-				v, err := f.Eval(value.Int(a))
+				// the argument is handed over as a sub-slice of a host buffer with spare capacity (f.Eval(buf[:1]...)):
+				// the evaluation must not write into the rest of the buffer
+				argBuf[0] = value.Int(a)
+				v, err := f.Eval(argBuf[:1]...)
+				for k := 1; k < len(argBuf); k++ {
+					if sv, isStr := argBuf[k].(value.String); !isStr || string(sv) != "host-owned" {
+						c.Violation("evaluation-writes-into-the-argument-slice", "Func.Eval wrote into the spare capacity of the slice its arguments were passed in",
+							map[string]any{"program": src, "argument": a, "step": s, "slot": k, "found": fmt.Sprint(argBuf[k])})
+						argBuf[k] = value.String("host-owned")
+						ok = false
+					}
+				}
 				var out string
 				mode := c.rng.Intn(4)
 				switch {
@@ -314,6 +343,13 @@ func workerConc(args []string) {
 		bad := ""
 		var mu sync.Mutex
 		for r := 0; r < rounds && bad == ""; r++ {
+			if r > 0 && r%2 == 0 {
+				// a fresh function: what happens only on the FIRST evaluation of a function (materialising a constant,
+				// the first append to it, filling a cache) happens concurrently in every second round
+				if fn2, _, err := fg.Generate(src, "a"); err == nil {
+					fn = fn2
+				}
+			}
 			start := make(chan struct{})
 			var wg sync.WaitGroup
 			results := make([]string, ng)
@@ -421,7 +457,7 @@ func runConcWorker(cases []*concCase, rounds, gmp int) {
 }
 
 func runC11(c *Ctx) {
-	c.rule = "programs as in C10 (constant lazy lists, maps, closures, recursion, failing elements) are generated once in a -race worker and evaluated from 2..16 goroutines released by a barrier, with equal arguments in even rounds and different arguments in odd rounds, under GOMAXPROCS in {1,4,16}; predicate: every outcome equals the isolated evaluation and the race detector reports nothing; non-trivial = distinct program containing a constant list, map or closure"
+	c.rule = "programs as in C10 (constant lazy lists, maps, closures, recursion, failing elements) are generated once in a -race worker and evaluated from 2..16 goroutines released by a barrier, with equal arguments in even rounds and different arguments in odd rounds, on a freshly generated function in every second round (first-evaluation effects happen concurrently again), under GOMAXPROCS in {1,4,16}; predicate: every outcome equals the isolated evaluation and the race detector reports nothing; non-trivial = distinct program containing a constant list, map or closure"
 	c.assume = append(c.assume, "the race detector and the Go memory model are the runtime authority on the explored schedules; the theorem-level content is the model's access discipline (fresh stack per evaluation, constants read-only)")
 	n := c.Pick(150, 4000)
 	rounds := c.Pick(12, 30)
